@@ -143,7 +143,14 @@ impl<'tcx> Cx<'tcx> {
         o.put("line", J::Num(lo.line as i64));
         o.put("col", J::Num(lo.col.0 as i64));
         o.put("eline", J::Num(hi.line as i64));
-        if sp.from_expansion() {
+        // code written in a macro_rules! of this crate is ordinary code of the crate; only expansions of foreign macros,
+        // derives and compiler desugarings are marked
+        let local_macro = sp.from_expansion()
+            && sp.ctxt().outer_expn_data().macro_def_id.map(|d| d.is_local()).unwrap_or(false);
+        if local_macro {
+            o.put("exp_local", J::Bool(true));
+        }
+        if sp.from_expansion() && !local_macro {
             let mut names = Vec::new();
             for ed in sp.macro_backtrace() {
                 names.push(J::s(ed.kind.descr()));
